@@ -28,7 +28,7 @@ PROPERTIES = {
                 assumptions=[A_PY, A_REAL, A_TRIG, A_NUMPY, A_UNITS, A_KERNEL_PIP,
                              'query arrays of rank 0, 1 and 2 with symbolic sizes stand for N-D arrays (ufuncs are rank-agnostic)',
                              'positions on the exact boundary are left open (open spec => code => closed spec)']),
-    'C19': dict(level='proof', trusted=[A_PY, A_REAL, A_INT, 'astropy.io.fits.util._is_int(v) == isinstance(v, int) (assumed contract)',
+    'C19': dict(level='proof', bounded=['bbox_ints'], trusted=[A_PY, A_REAL, A_INT, 'astropy.io.fits.util._is_int(v) == isinstance(v, int) (assumed contract)',
                                         'numpy.floor/ceil are the mathematical floor/ceiling'],
                 assumptions=[A_PY, A_REAL, A_INT]),
     'C04': dict(level='proof', bounded=['boxes'], trusted=[A_PY, A_REAL, A_TRIG, A_NUMPY, A_UNITS,
